@@ -230,7 +230,7 @@ def gen_spec(r, P):
         if kind == "direct":
             return {"k": "direct", "to": r.choice(dests)}
         if kind in ("jsq", "lb"):
-            return {"k": kind, "dests": r.sample(jsq_ok, r.randint(1, len(jsq_ok))), "tb": r.choice(["random", "order"])}
+            return {"k": kind, "dests": r.sample(jsq_ok, r.randint(1, len(jsq_ok))), "tb": r.choice(P.get("jsq_tb", ["random", "order"]))}
         return {"k": "cycle", "cycle": [r.choice(dests + [-1]) for _ in range(r.randint(1, 3))]}
 
     routing = {}
@@ -272,7 +272,7 @@ def gen_spec(r, P):
     if F("baulk"):
         S["baulk"] = {c: [{"ps": [r.choice([0.0, 0.0, 0.5, 1.0]) for _ in range(r.randint(1, 4))]}
                           if r.random() < 0.6 else None for _ in range(n)] for c in classes}
-    S["disc"] = [r.choice(["FIFO", "LIFO", "SIRO"]) for _ in range(n)] if F("disc") else None
+    S["disc"] = [r.choice(P.get("disc_opts", ["FIFO", "LIFO", "SIRO"])) for _ in range(n)] if F("disc") else None
     S["spf"] = [r.choice([None, "hi", "lo"]) for _ in range(n)] if F("spf") else None
 
     # trackers / detectors ---------------------------------------------------------------
